@@ -16,8 +16,13 @@ for d in sorted(os.listdir(os.path.join(V, "seeded"))):
         items.append((d, p))
 for m in json.load(open(os.path.join(V, "selftest", "index.json")))["mutants"]:
     items.append(("selftest:" + m["id"], os.path.join(V, m["patch"])))
-mx_path = os.path.join(V, "seeded", "matrix.json")
+mx_path = os.environ.get("SEEDED_MATRIX") or os.path.join(V, "seeded", "matrix.json")
 mx = json.load(open(mx_path)) if os.path.exists(mx_path) and only else {}
+if os.environ.get("SEEDED_SHARD"):
+    # "k/n": this process handles every n-th item (tools/run_seeded_par.sh runs the shards in parallel, each with its own VERIF_CACHE)
+    k, n = [int(x) for x in os.environ["SEEDED_SHARD"].split("/")]
+    items = [it for j, it in enumerate(x for x in items if not only or any(x[0].startswith(o) or x[0] == "selftest:" + o for o in only)) if j % n == k]
+    mx = {}
 os.environ.setdefault("VERIF_TIER", "quick")
 for sid, patch in items:
     if only and not any(sid.startswith(o) or sid == "selftest:" + o for o in only):
